@@ -1466,6 +1466,97 @@ func (x *lkExtractor) registerShape() ([]string, error) {
 	return toks, nil
 }
 
+// containerReturns: exported methods of Store / DB / Replica / Compactor whose result is one of the receiver's
+// own slice- or map-typed fields handed out without a copy (bare field, re-slice, slices.Clip / slices.Grow of it).
+// Consumers walk such results after the lock is released, so they must be snapshots (slices.Clone / maps.Clone).
+func (x *lkExtractor) containerReturns() (shared []string, dbsExpr string) {
+	// container-typed fields per struct
+	cont := map[string]bool{}
+	for _, f := range x.p.files {
+		for _, d := range f.Decls {
+			gd, ok := d.(*ast.GenDecl)
+			if !ok || gd.Tok != token.TYPE {
+				continue
+			}
+			for _, sp := range gd.Specs {
+				ts := sp.(*ast.TypeSpec)
+				st, ok := ts.Type.(*ast.StructType)
+				if !ok {
+					continue
+				}
+				for _, fl := range st.Fields.List {
+					isCont := false
+					switch t := fl.Type.(type) {
+					case *ast.ArrayType:
+						isCont = t.Len == nil
+					case *ast.MapType:
+						isCont = true
+					}
+					for _, n := range fl.Names {
+						if isCont {
+							cont[ts.Name.Name+"."+n.Name] = true
+						}
+					}
+				}
+			}
+		}
+	}
+	var keys []string
+	for k := range x.funcs {
+		keys = append(keys, k)
+	}
+	sort.Strings(keys)
+	for _, k := range keys {
+		fd := x.funcs[k]
+		recvT := lkRecvName(fd)
+		if recvT == "" || !ast.IsExported(fd.Name.Name) || fd.Recv == nil || len(fd.Recv.List[0].Names) == 0 {
+			continue
+		}
+		switch recvT {
+		case "Store", "DB", "Replica", "Compactor":
+		default:
+			continue
+		}
+		recv := fd.Recv.List[0].Names[0].Name
+		field := func(e ast.Expr) string { // recv.f with f a container field
+			if sel, ok := e.(*ast.SelectorExpr); ok {
+				if id, ok := sel.X.(*ast.Ident); ok && id.Name == recv && cont[recvT+"."+sel.Sel.Name] {
+					return sel.Sel.Name
+				}
+			}
+			return ""
+		}
+		ast.Inspect(fd.Body, func(n ast.Node) bool {
+			if _, ok := n.(*ast.FuncLit); ok {
+				return false
+			}
+			rs, ok := n.(*ast.ReturnStmt)
+			if !ok {
+				return true
+			}
+			for _, r := range rs.Results {
+				if k == "Store.DBs" {
+					dbsExpr = x.src(r)
+				}
+				e := r
+				if se, ok := e.(*ast.SliceExpr); ok {
+					e = se.X
+				}
+				if c, ok := e.(*ast.CallExpr); ok && len(c.Args) >= 1 {
+					if t := x.src(c.Fun); t == "slices.Clip" || t == "slices.Grow" {
+						e = c.Args[0]
+					}
+				}
+				if f := field(e); f != "" {
+					shared = append(shared, fmt.Sprintf("%s returns %s", k, x.src(r)))
+				}
+			}
+			return true
+		})
+	}
+	return shared, dbsExpr
+}
+
 func init() {
 	facts["Locks"] = func(repo string) (string, error) {
 		x, err := newLkExtractor(repo)
@@ -1594,6 +1685,16 @@ func init() {
 			q[i] = fmt.Sprintf("%q", s)
 		}
 		fmt.Fprintf(&sb, "/-- store.go: RegisterDB, statement shape -/\ndef registerShape : List String := [%s]\n\n", strings.Join(q, ", "))
+		shared, dbsExpr := x.containerReturns()
+		if dbsExpr == "" {
+			return "", fmt.Errorf("Store.DBs: return expression not found")
+		}
+		qs := make([]string, len(shared))
+		for i, sh := range shared {
+			qs[i] = fmt.Sprintf("%q", sh)
+		}
+		fmt.Fprintf(&sb, "/-- exported accessors of Store/DB/Replica/Compactor that hand out one of the receiver's own slices/maps without a copy -/\ndef sharedContainerReturns : List String := [%s]\n\n", strings.Join(qs, ", "))
+		fmt.Fprintf(&sb, "/-- store.go: what Store.DBs returns -/\ndef storeDBsReturn : String := %q\n\n", dbsExpr)
 		pick := func(es []entry, name string) string {
 			var ps []string
 			for _, e := range es {
